@@ -11,6 +11,9 @@ REPLAYS = os.path.join(VERIF, "replays")
 EVIDENCE = os.path.join(VERIF, "evidence")
 CORPUS = os.path.join(VERIF, "corpus")
 REPO = os.environ.get("VERIF_REPO", "/repo")
+if REPO != "/repo":
+    # runs against a scratch tree (seeded changes, mutants) leave the committed evidence alone
+    EVIDENCE = os.path.join(VERIF, "build", "evidence-scratch")
 MODEL = os.path.join(LEAN, ".lake", "build", "bin", "goflow-model")
 
 ALLOWED_AXIOMS = {"propext", "Classical.choice", "Quot.sound"}
@@ -554,6 +557,45 @@ def gen_ops(prop, spec, tier, seed):
     return lines
 
 
+def confirm_alone(binary, ops, impl, failures, limit=6):
+    """History independence (C12): for a stateless datagram (NetFlow v5, sFlow) whose output in the
+    history differs from the model's, process it alone in a fresh process (same configuration and
+    pipes, nothing else before it). If the implementation itself gives a different output alone than
+    after the history, that history is a concrete failing input of the property."""
+    done = 0
+    out = []
+    for f in failures:
+        if f["kind"] != "correspondence" or "idx" not in f or done >= limit:
+            out.append(f)
+            continue
+        o = next((x for x in ops if x.idx == f["idx"]), None)
+        ws = o.line.split(" ") if o else []
+        if not ws or ws[0] not in ("pkt", "pktf") or len(ws) < 6:
+            out.append(f)
+            continue
+        payload = ws[5]
+        stateless = payload.startswith("0005") or payload.startswith("00000005")
+        if not stateless:
+            out.append(f)
+            continue
+        done += 1
+        setup = [x for x in ops if x.idx < o.idx and x.line.split(" ")[0] in ("cfg", "reset", "pipe")]
+        alone_ops = parse_ops([x.line for x in setup] + [o.line])
+        alone, _ = run_impl(binary, alone_ops, watchdog_ms=5000)
+        got_alone = alone[alone_ops[-1].idx]
+        got_hist = impl[o.idx]
+        if got_alone != got_hist:
+            a, b = first_diff(got_alone, got_hist)
+            g = dict(f)
+            g["kind"] = "oracle"
+            g["detail"] = "the datagram processed alone in a fresh process gives %s, after this history %s" % (a, b)
+            g["replay_lines"] = ["alone: " + " ; ".join(x.line[:120] for x in alone_ops[-3:])]
+            out.append(g)
+        else:
+            out.append(f)
+    return out
+
+
 def run_property(prop, tier, seed):
     import props
     t0 = time.time()
@@ -612,6 +654,8 @@ def run_property(prop, tier, seed):
             model = run_model(ops)
             impl, _ = run_impl(bins[implname], ops, watchdog_ms=spec.get("watchdog_ms", 5000 if tier == "quick" else 10000))
             fl = compare(prop, spec, ops, impl, model)
+            if spec.get("confirm_alone"):
+                fl = confirm_alone(bins[implname], ops, impl, fl)
             failures += fl
             evaluations += len(ops)
             for o in ops:
